@@ -96,7 +96,22 @@ class LoggingCapture(BufferingHandler):
         self.buffer = []
 
     def getvalue(self):
-        return '\n'.join(self.formatter.format(r) for r in self.buffer)
+        return '\n'.join(self._format_record(r) for r in self.buffer)
+
+    def _format_record(self, record):
+        """Format a captured record; a record that cannot be formatted
+        (args do not fit the message, bad logging_format, ...) is described
+        instead of breaking the failure report of a step.
+        """
+        try:
+            return self.formatter.format(record)
+        except Exception as e:  # pylint: disable=broad-except
+            try:
+                message = "%r" % (record.msg,)
+            except Exception:   # pylint: disable=broad-except
+                message = "<%s>" % record.msg.__class__.__name__
+            return "%s:%s:LOGGING-FORMAT-ERROR %s: msg=%s" % (
+                record.levelname, record.name, e.__class__.__name__, message)
 
     def find_event(self, pattern):
         """Search through the buffer for a message that matches the given
